@@ -117,7 +117,29 @@ MUTANTS = [
       "        a.set_node(namex, child, metadata)\n",
       "        a = Adder(child, overwrite=overwrite,\n                  create_readonly_node=self._create_readonly_node)\n"
       "        a.set_node(namex, child, metadata)\n", "C13.5"),
+    # ---- C13.6 the serialised region covers all the work
+    M("overwrite-impl-forgets-return", FN,
+      "        d.addCallback(self._did_upload, new_contents.get_size())\n        return d\n\n\n    def upload(self, new_contents, servermap):",
+      "        d.addCallback(self._did_upload, new_contents.get_size())\n\n\n    def upload(self, new_contents, servermap):",
+      "C13.6"),
+    M("modify-once-does-not-await-publish", FN,
+      "            return self._upload(new_contents)\n        d.addCallback(_apply)\n",
+      "            self._upload(new_contents)\n        d.addCallback(_apply)\n", "C13.6"),
+    M("node-modify-callback-drops-deferred", FN,
+      "        d.addCallback(lambda mfv: mfv.modify(modifier, backoffer))\n",
+      "        def _go(mfv):\n            mfv.modify(modifier, backoffer)\n        d.addCallback(_go)\n", "C13.6"),
+    M("retry-not-awaited", FN,
+      "            d2.addCallback(lambda ignored:\n                           self._modify_and_retry(modifier,\n"
+      "                                                  backoffer, False))\n            return d2\n",
+      "            d2.addCallback(lambda ignored:\n                           self._modify_and_retry(modifier,\n"
+      "                                                  backoffer, False))\n", "C13.6"),
     # ---- benign
+    M("benign-upload-chained-return", FN,
+      "        d = p.publish(new_contents)\n        d.addCallback(self._did_upload, new_contents.get_size())\n        return d\n"
+      "\n\n    def _did_upload(self, res, size):\n        self._most_recent_size = size\n        return res\n\n    def update(",
+      "        return p.publish(new_contents).addCallback(self._did_upload, new_contents.get_size())\n"
+      "\n\n    def _did_upload(self, res, size):\n        self._most_recent_size = size\n        return res\n\n    def update(",
+      None),
     M("benign-modify-through-local", FN,
       "        # TODO: Update downloader hints.\n        return self._do_serialized(self._modify, modifier, backoffer)\n",
       "        d = self._do_serialized(self._modify, modifier, backoffer)\n        return d\n", None),
